@@ -789,6 +789,12 @@ func (m *mappedFile) newCounter(name string) (v *atomic.Uint64, m1 *mappedFile, 
 }
 
 func (m *mappedFile) extend(end uint32) (*mappedFile, error) {
+	if end > ^uint32(0)-(pageSize-1) {
+		// Rounding up to a page would wrap around to 0 and extend nothing,
+		// and newCounter would retry forever. Only a corrupt allocation
+		// limit in the file header asks for this.
+		return nil, errCorrupt
+	}
 	end = round(end, pageSize)
 	info, err := m.f.Stat()
 	if err != nil {
